@@ -23,6 +23,7 @@
  *       distrm | distrmdepth <depth> | distfail | disthandle <name> <0 report|1 transform|3 release_remove> | mreg <name> <flags> | mset <id> <numaidx> <-|set> <value> | kind <set> <eff> <name> <value>
  *       robj <depth> <idx> <flags> (restrict to that object's cpuset/nodeset) | gobj <depth> <i> <j> | kobj <depth> <idx> <eff> <name> <value>
  *       mseto <id> <numaidx> <depth> <idx> <value> (cpuset initiator) | mseti ... (OBJECT initiator) | obs | (depth >= 1000: depth of type depth-1000)
+ *       allowobj <depth> <i> <j> | allownode <i> <j>   (hwloc_topology_allow CUSTOM; needs flags 1 = INCLUDE_DISALLOWED) |
  *       subtype <depth> <idx> <string|-> |
  *       infoclr <depth> <idx> | tinfoclr | kinfoclr <kind> | kinfo <kind> <name> <value> | udclr <depth> <idx>   (emptied, still allocated arrays)
  *       info <depth> <idx> <name> <value> | tinfo <name> <value> | refresh | allow <flags> | ud <depth> <idx> | tud | cb
@@ -209,6 +210,19 @@ static int apply_op(hwloc_topology_t t, char *op, int *handled)
   if (sscanf(op, "tinfo %255s %255s", a2, a3) == 2) return hwloc_modify_infos(hwloc_topology_get_infos(t), HWLOC_MODIFY_INFOS_OP_ADD, a2, a3);
   if (!strcmp(op, "refresh")) return hwloc_topology_refresh(t);
   if (sscanf(op, "allow %lu", &fl) == 1) return hwloc_topology_allow(t, NULL, NULL, fl);
+  /* hwloc_topology_allow(CUSTOM): allowed cpuset = objects i..j of a depth, or allowed nodeset = NUMA nodes i..j */
+  if (sscanf(op, "allowobj %d %u %u", &d, &u, &u2) == 3) {
+    hwloc_bitmap_t s = hwloc_bitmap_alloc(); unsigned i; int rc;
+    for (i = u; i <= u2 && i < u + 256; i++) { hwloc_obj_t o = objat(t, d, i); if (o && o->cpuset) hwloc_bitmap_or(s, s, o->cpuset); }
+    rc = hwloc_topology_allow(t, s, NULL, HWLOC_ALLOW_FLAG_CUSTOM); { int e = errno; hwloc_bitmap_free(s); errno = e; }
+    return rc;
+  }
+  if (sscanf(op, "allownode %u %u", &u, &u2) == 2) {
+    hwloc_bitmap_t s = hwloc_bitmap_alloc(); unsigned i; int rc;
+    for (i = u; i <= u2 && i < u + 256; i++) { hwloc_obj_t o = hwloc_get_obj_by_type(t, HWLOC_OBJ_NUMANODE, i); if (o) hwloc_bitmap_or(s, s, o->nodeset); }
+    rc = hwloc_topology_allow(t, NULL, s, HWLOC_ALLOW_FLAG_CUSTOM); { int e = errno; hwloc_bitmap_free(s); errno = e; }
+    return rc;
+  }
   if (sscanf(op, "ud %d %u", &d, &u) == 2) { hwloc_obj_t o = objat(t, d, u); if (!o) { errno = ENOENT; return -2; } o->userdata = &hwv_ud_target[u % 4]; return 0; }
   if (!strcmp(op, "tud")) { hwloc_topology_set_userdata(t, &hwv_ud_target[0]); return 0; }
   if (!strcmp(op, "cb")) { hwloc_topology_set_userdata_export_callback(t, hwv_export_cb); hwloc_topology_set_userdata_import_callback(t, hwv_import_cb); return 0; }
